@@ -33,9 +33,35 @@ Theorem C10_slices_disjoint :
 Proof.
   intros k h K HH. destruct (grun_inv k (fresh, []) h K (Inv_fresh k) HH) as [(_ & _ & H) _]. exact H.
 Qed.
-(* C10_uniform_exact (no bytes before, between or after the objects when all
-   requests share one alignment) is not proved yet: it is decided on the
-   implementation by the uniform histories of the correspondence run. *)
+(* ---- the byte-exact clause (ArenaUniform.v): every request has the one alignment Au
+   (MIN_ALIGN <= Au <= CHUNK_ALIGN) and a size that is a multiple of it ---- *)
+From BV Require Import ArenaUniform ArenaSafeThm.
+
+(* one allocation: the slices grow by exactly its size, or not at all when it fails — whichever
+   path serves it, whatever the global allocator answers *)
+Theorem C10_uniform_alloc_exact : forall k A Au b l,
+  cfg_ok k -> ChunksInv k (chunks b) -> A_ok k A b ->
+  uni_cfg k Au -> uni_req Au l -> uni_state Au b ->
+  let r := try_alloc k A b l in
+  uni_state Au (fst r) /\
+  iter_total (fst r) = iter_total b + (match o_res (snd r) with ROk _ => l_size l | _ => 0 end).
+Proof. exact uniform_alloc_exact. Qed.
+
+Theorem C10_uniform_reset : forall k Au b,
+  cfg_ok k -> ChunksInv k (chunks b) -> uni_cfg k Au ->
+  uni_state Au (fst (reset k b)) /\ iter_total (fst (reset k b)) = 0.
+Proof. exact uniform_reset. Qed.
+
+(* whole histories of uniform allocations and resets from a fresh arena: the slices hold exactly
+   the bytes of the allocations that succeeded since the last reset — no byte before, between or
+   after the objects (sp_iter_exact is the predicate the checker evaluates on the implementation) *)
+Theorem C10_uniform_history_exact : forall k Au h, cfg_ok k -> uni_cfg k Au ->
+  hist_ok k (fresh, []) h -> Forall (fun oa => uni_op Au (fst oa)) h ->
+  sp_iter_exact (q_iter_chunks (fst (grun k (fresh, []) h))) (uni_total k (fresh, []) h 0) = true.
+Proof. exact uniform_history_fresh. Qed.
+
+Theorem C10_exact_predicate : forall b n, sp_iter_exact (q_iter_chunks b) n = true <-> iter_total b = n.
+Proof. exact sp_iter_exact_total. Qed.
 
 Example C10_witness :
   let k := mkCfg 48 16 64 448 4096 1 1000 in
@@ -47,3 +73,7 @@ Proof. vm_compute. reflexivity. Qed.
 Print Assumptions C10_iter_shape.
 Print Assumptions C10_live_contained.
 Print Assumptions C10_slices_disjoint.
+Print Assumptions C10_uniform_alloc_exact.
+Print Assumptions C10_uniform_reset.
+Print Assumptions C10_uniform_history_exact.
+Print Assumptions C10_exact_predicate.
